@@ -9,7 +9,7 @@ use core::arch::x86_64::*;
 
 /// AVX empowered implementation that will only work on `x86_64` with avx2 enabled at the CPU
 /// level.
-#[derive(Debug, Default, Clone)]
+#[derive(Debug, Clone)]
 pub struct AvxHash {
     v0: V4x64U,
     v1: V4x64U,
@@ -51,6 +51,12 @@ impl HighwayHash for AvxHash {
             buffer: self.buffer,
         }
         .checkpoint()
+    }
+}
+
+impl Default for AvxHash {
+    fn default() -> Self {
+        unsafe { Self::force_new(Key::default()) }
     }
 }
 
